@@ -126,6 +126,11 @@ def run(repo: Repo, rep: Report, tier: str) -> None:
             else:
                 rep.violation("R19.2", sub, f"{po.fq}|{callee}-context", f"{callee} is not given the operation id as naming context", po.loc(c))
 
+    # ---------------------------------------------------------------- R19.5 recursion context threading (declaration-order independence)  [= R2.9]
+    from rules.c02 import threading_rule
+
+    threading_rule(repo, rep, "R19.5")
+
     # ---------------------------------------------------------------- R19.3
     for spec in ("types.strategies.response_strategy:ResponseStrategyResolver._get_primary_response",
                  "types.resolvers.response_resolver:OpenAPIResponseResolver._get_primary_response",
